@@ -183,6 +183,33 @@ def gen_op(rng, spec):
     return {"op": kind, "roots": roots, "perm": rng.getrandbits(30)}
 
 
+def _with_class_change(rng, spec, oplist):
+    """[build R, add a member to a union reachable from R, build R again] spliced into the history."""
+    schema = spec["schema"]
+    twins = set(spec.get("twins", []))
+    if rng.random() >= 0.35:
+        return oplist
+    urefs = [i for i, ty in enumerate(schema) if ty["k"] == "uref" and i not in twins]
+    if not urefs:
+        return oplist
+    u = rng.choice(urefs)
+    hybrid = set(spec.get("hybrid", [])) if not isinstance(spec.get("hybrid"), dict) else set(int(k) for k in spec["hybrid"])
+    names_u = {schema[t].get("name") for t in schema[u]["members"]}
+    cands = [i for i, ty in enumerate(schema) if ty["k"] in ("struct", "array") and i not in twins and i not in schema[u]["members"] and ty.get("name") not in names_u and i not in hybrid and not ty.get("hybrid") and sum(1 for x in schema if x.get("name") == ty.get("name")) == 1]
+    acyclic = [i for i in cands if u not in closure(spec, [i])]
+    cyclic = [i for i in cands if u in closure(spec, [i])]
+    pool = cyclic if cyclic and rng.random() < 0.25 else acyclic
+    if not pool:
+        return oplist
+    m = rng.choice(pool)
+    holders = [i for i, ty in enumerate(schema) if ty["k"] in ("struct", "array", "uref") and i not in twins and u in closure(spec, [i])]
+    roots = [rng.choice(holders)] + ([rng.choice(holders)] if rng.random() < 0.4 else [])
+    first = {"op": "build", "roots": roots, "perm": rng.getrandbits(30)}
+    second = {"op": rng.choice(["build", "build", "sort"]), "roots": list(roots), "perm": rng.getrandbits(30)}
+    j = rng.randrange(len(oplist) + 1)
+    return oplist[:j] + [first, {"op": "grow_union", "u": u, "m": m}, second] + oplist[j:]
+
+
 def build_classes(spec):
     """Classes of the schema, with `_depends_on` and HybridClass declarations."""
     schema = spec["schema"]
@@ -336,8 +363,14 @@ class DepSim:
         else:
             spec = gen_world(rng, tier)
             oplist = [gen_op(rng, spec) for _ in range(spec["nops"])]
+            oplist = _with_class_change(rng, spec, oplist)
         ops = []
-        res.replay = {"world": spec, "ops": ops, "profile": profile, "engine": "depsim"}
+        import json as _json
+
+        # (a copy: steps that change a class also change the schema the oracle reads)
+        res.replay = {"world": _json.loads(_json.dumps(spec)), "ops": ops, "profile": profile, "engine": "depsim"}
+        spec = _json.loads(_json.dumps(spec))
+        spec["depends"] = [tuple(x) for x in spec.get("depends", [])]
         try:
             classes = build_classes(spec)
         except Exception as e:
@@ -362,6 +395,20 @@ class DepSim:
         xo.ContextCpu._compile_kernels_info = False
         try:
             for op in oplist:
+                if op["op"] == "grow_union":
+                    # a class that has been built already gets another member: the next build of the
+                    # same roots on the same context has to take the class as it is now
+                    u, m = op["u"], op["m"]
+                    if u >= len(classes) or m >= len(classes) or spec["schema"][u]["k"] != "uref" or m in spec["schema"][u]["members"]:
+                        res.skipped += 1
+                        continue
+                    classes[u]._reftypes.append(classes[m])
+                    spec["schema"][u]["members"].append(m)
+                    ops.append(op)
+                    res.steps += 1
+                    res.fault("class_changed_between_builds")
+                    res.log.append([res.steps, "grow_union", [u, m], []])
+                    continue
                 if any(r >= len(classes) for r in op["roots"]):
                     res.skipped += 1
                     continue
